@@ -19,6 +19,7 @@ import (
 	"sync"
 	"sync/atomic"
 	"testing/synctest"
+	"time"
 	_ "unsafe"
 )
 
@@ -290,6 +291,12 @@ type Config struct {
 	Prefix   []int   // scheduling choices to replay; afterwards choice 0
 	Sel      []uint8 // decisions for the k-th multi-ready select; afterwards 0
 	MaxSteps int     // horizon (0 = 20000)
+	// Tick / MaxTicks: when nothing is enabled but a non-daemon goroutine is unfinished, the
+	// scheduler lets the bubble's fake clock advance by sleeping Tick (pending timers fire in
+	// time order), at most MaxTicks times per execution.  A timer firing is thus an explicit
+	// event of the schedule, never a wall-clock accident.
+	Tick     time.Duration
+	MaxTicks int
 }
 
 // ErrDivergence is the panic value for a replayed choice that is out of range.
@@ -366,6 +373,7 @@ func Run(cfg Config, setup func() (init func(), threads []Thread, cleanup func()
 			t.F()
 		}()
 	}
+	ticks := 0
 	for step := 0; !e.Deadlock; step++ {
 		synctest.Wait()
 		e.mu.Lock()
@@ -376,6 +384,20 @@ func Run(cfg Config, setup func() (init func(), threads []Thread, cleanup func()
 		}
 		c := e.enabled()
 		if len(c) == 0 {
+			unfinished := false
+			for _, g := range e.gs {
+				if !g.done && !g.Daemon {
+					unfinished = true
+				}
+			}
+			if unfinished && ticks < cfg.MaxTicks && cfg.Tick > 0 {
+				ticks++
+				e.Trace = append(e.Trace, Step{N: 1, Chosen: 0, G: "clock", Label: "advance fake clock", SelPos: int(selPos)})
+				e.last = nil
+				e.stepNo.Store(int64(step + 1))
+				time.Sleep(cfg.Tick)
+				continue
+			}
 			break
 		}
 		if step >= maxSteps {
